@@ -20,6 +20,17 @@ PARAMS = dict(quick_cfgs=["MC_C16_quick.cfg", "MC_C16_two.cfg"], thorough_cfgs=[
     # directed: a wallet that has NEVER looked at the chain (a new wallet) answers a payment that
     # is then abandoned: the stale incoming record (made at observed height 0) is dropped by a scan asked to drop pending
     # transactions, once and for all
+    # directed: a wrongly SPENT record whose output sits at ANOTHER height now - the change of s1 (mined in the second of
+    # three blocks) is spent by s2; a reorganisation of depth 3 re-includes s1 in its FIRST block and drops s2: the record
+    # says Spent at the old height, the chain has the output unspent one block lower; scan repairs it, twice
+    [{"ev": "init_send", "w": "w1", "sl": "s1", "amt": 1000}, {"ev": "lock", "w": "w1", "sl": "s1", "stage": "S1"},
+     {"ev": "receive", "w": "w2", "sl": "s1"}, {"ev": "finalize", "w": "w1", "sl": "s1", "stage": "S2"}, {"ev": "post", "sl": "s1"},
+     {"ev": "mine", "to": "", "txs": []}, {"ev": "mine", "to": "", "txs": ["s1"]}, {"ev": "refresh", "w": "w1"}, {"ev": "refresh", "w": "w2"},
+     {"ev": "init_send", "w": "w1", "sl": "s2", "amt": 1000}, {"ev": "lock", "w": "w1", "sl": "s2", "stage": "S1"},
+     {"ev": "receive", "w": "w2", "sl": "s2"}, {"ev": "finalize", "w": "w1", "sl": "s2", "stage": "S2"}, {"ev": "post", "sl": "s2"},
+     {"ev": "mine", "to": "", "txs": ["s2"]}, {"ev": "refresh", "w": "w1"},
+     {"ev": "fork", "depth": 3, "keep": ["s1"]},
+     {"ev": "scan", "w": "w1", "start": 1, "del": False}, {"ev": "scan", "w": "w1", "start": 1, "del": False}, {"ev": "refresh", "w": "w1"}],
     [{"ev": "setup", "norefresh2": True}, {"ev": "init_send", "w": "w1", "sl": "s1", "amt": 1000},
         {"ev": "receive", "w": "w2", "sl": "s1", "dest": ""}, {"ev": "scan", "w": "w2", "start": 1, "del": True},
         {"ev": "scan", "w": "w2", "start": 1, "del": True}, {"ev": "refresh", "w": "w2"}]])
